@@ -242,6 +242,11 @@ class WSStream:
             # Closed first, the app may try to accept whilst this is sent
             self.closed = True
             await self._send_error_response(400)
+            if self.app_put is not None:
+                # The later StreamClosed is ignored, as this is closed
+                await self.app_put(
+                    {"type": "websocket.disconnect", "code": CloseReason.ABNORMAL_CLOSURE.value}
+                )
         elif isinstance(event, (Body, Data)):
             self.connection.receive_data(event.data)
             await self._handle_events()
